@@ -96,8 +96,8 @@ def inline_spec(opname: str, yexpr, timeout: float) -> Spec:
 F_INLINE = lisp_eval("(fn [x y] ({lop} x y))", "verif.c20.inl")
 F_NOINL = lisp_eval("(fn [x y] ({lop} x y))", "verif.c20.noinl", opts={{"inline-functions": False}})
 F_APPLY = lisp_eval("(fn [x y] (apply {lop} [x y]))", "verif.c20.app")
-F_INC = lisp_eval("(fn [x] [(inc x) (dec x) (zero? x) (pos? x) (neg? x) (even? x)])", "verif.c20.inc")
-F_INC_A = lisp_eval("(fn [x] [(apply inc [x]) (apply dec [x]) (apply zero? [x]) (apply pos? [x]) (apply neg? [x]) (apply even? [x])])", "verif.c20.inca")
+F_INC = lisp_eval("(fn [x] [(inc x) (dec x) (zero? x) (pos? x) (neg? x)])", "verif.c20.inc")
+F_INC_A = lisp_eval("(fn [x] [(apply inc [x]) (apply dec [x]) (apply zero? [x]) (apply pos? [x]) (apply neg? [x])])", "verif.c20.inca")
 def DIAG(**k):
     x = k["x"]; y = k.get("y", {yexpr!r})
     return (F_INLINE(x, y), F_NOINL(x, y), F_APPLY(x, y))
@@ -115,6 +115,295 @@ def DIAG(**k):
                 meta={"kind": "inline", "op": opname})
 
 
+# ------------------------------------------------------------------ Engine B: the compiler's IR of quot / rem / mod
+IR_SCRIPT = r'''
+import ast, sys
+import basilisp.main as m
+m.init()
+from basilisp.lang.compiler import optimizer as O
+from basilisp.lang import compiler as cc, reader as rd, runtime as rt, symbol as sym
+caps, depth = [], [0]
+orig = O.PythonASTOptimizer.visit
+def visit(self, node):
+    if depth[0] == 0:
+        depth[0] += 1
+        try:
+            r = orig(self, node); caps.append(r); return r
+        finally:
+            depth[0] -= 1
+    return orig(self, node)
+O.PythonASTOptimizer.visit = visit
+WANT = {"+", "-", "*", "/", "<", ">", "quot", "rem", "mod", "inc", "dec", "zero?", "pos?", "neg?", "abs"}
+src = open(sys.argv[1]).read()
+ns = rt.Namespace.get_or_create(sym.symbol("basilisp.core"))
+with rt.ns_bindings("basilisp.core"):
+    for form in rd.read_str(src, resolver=rt.resolve_alias):
+        try:
+            head, name = form.first, form.rest.first
+        except AttributeError:
+            continue
+        if getattr(head, "name", None) == "defn" and getattr(name, "name", None) in WANT:
+            cc.compile_and_exec_form(form, cc.CompilerContext("<ir>"), ns)
+out = []
+for mod in caps:
+    for st in mod.body:
+        if isinstance(st, ast.FunctionDef):
+            if st.name.startswith("__lisp_expr__"):
+                continue
+            st.decorator_list = [d for d in st.decorator_list if "_with_attrs" not in ast.unparse(d)]
+            out.append(ast.unparse(st))
+        elif isinstance(st, ast.Assign):
+            out.append(ast.unparse(st))
+print((chr(10) * 2).join(out))
+'''
+
+
+class TrampolineArgs:
+    def __init__(self, has_varargs, args):
+        self.has_varargs, self.args = has_varargs, list(args)
+
+    def trampoline_args(self):
+        if not self.has_varargs:
+            return self.args
+        *fixed, rest = self.args
+        return list(fixed) + list(rest or ())
+
+
+def ir_interp(ir_src):
+    import re
+
+    import z3
+
+    from ..pysym.interp import ExcVal, ExtModule, Interp, Intrinsic, PyRaise, SInt, SReal, Unsupported
+    from ..pysym.pyproto import _treal
+
+    I = Interp(unwind=6)
+    X = I.intrinsics
+
+    def frac_new(I_, cls, num=0, den=None):
+        n = _treal(num)
+        if den is None:
+            return SReal(n)
+        d = _treal(den)
+        if I_.path.branch(d == 0):
+            raise PyRaise(ExcVal("ZeroDivisionError"))
+        return SReal(n / d)
+
+    I.method_hooks[("Fraction", "__new__")] = frac_new
+
+    def trunc(I_, v):
+        if isinstance(v, SReal):
+            return SInt(z3.If(v.t >= 0, z3.ToInt(v.t), -z3.ToInt(-v.t)))
+        return v
+
+    def floor(I_, v):
+        return SInt(z3.ToInt(v.t)) if isinstance(v, SReal) else v
+
+    X["math.trunc"] = Intrinsic("math.trunc", trunc)
+    X["math.floor"] = Intrinsic("math.floor", floor)
+    X["operator.neg"] = Intrinsic("operator.neg", lambda I_, v: I_.binop(__import__("ast").Sub(), 0, v))
+    X["operator.abs"] = X["abs"]
+    # runtime support functions used by generated variadic arities (environment; rest args are Python tuples here)
+    X["runtime._unwrap_rest_args"] = Intrinsic("_unwrap_rest_args", lambda I_, a: tuple(a))
+    X["runtime.first"] = Intrinsic("first", lambda I_, s_: (s_[0] if s_ else None))
+    X["runtime.rest"] = Intrinsic("rest", lambda I_, s_: tuple(s_[1:]) if s_ else ())
+    X["runtime.to_seq"] = Intrinsic("to_seq", lambda I_, s_: (s_ if s_ else None))
+    X["runtime._TrampolineArgs"] = Intrinsic("_TrampolineArgs", lambda I_, has_varargs, *a: TrampolineArgs(has_varargs, a))
+    X["runtime.RuntimeException"] = X["RuntimeException"]
+    m = I.module_from_source("<compiler-ir>", ir_src)
+    # module aliases generated by the compiler: numbers_20, math_abc, operator_2, runtime_25, basilisp
+    names = set(re.findall(r"\b([A-Za-z]+_[A-Za-z0-9]+)\.", ir_src))
+    for n in names:
+        base = n.split("_")[0]
+        if base == "numbers":
+            m.globals[n] = I.module("src/basilisp/lang/numbers.py")
+        elif base in ("math", "operator", "runtime"):
+            m.globals[n] = ExtModule(base)
+    m.globals["basilisp"] = ExtModule("basilisp")
+    X["basilisp.lang"] = ExtModule("basilisp.lang")
+    X["basilisp.lang.runtime"] = ExtModule("runtime")
+    return I, m
+
+
+def qrm_scenario(ir_src, ymode, what):
+    """x: any int; y: symbolic non-zero int in a small range ('sym') or a concrete divisor"""
+    import z3
+
+    from ..pysym import inputs as si
+    from ..pysym.interp import SBool, SInt, SReal
+
+    def run(I_unused, path):
+        I, m = ir_interp(ir_src)
+        I.path = path
+        x = si.sym_int(path, "x")
+        if ymode == "sym":
+            y = si.sym_int(path, "y", -12, 12)
+            path.assume(y.t != 0)
+        else:
+            y = ymode
+        yt = y.t if isinstance(y, SInt) else z3.IntVal(y)
+        f = I.global_lookup(m, what)
+        r = I.call(f, [x, y])
+        path.ghost.setdefault("observe", {})["result"] = r
+        if not isinstance(r, SInt):
+            return False          # an integral result must be an int, never a Fraction / float
+        q = z3.Int("q_ref")       # reference: truncated quotient of x by y, defined by its specification
+        rr = z3.Int("r_ref")
+        absy = z3.If(yt >= 0, yt, -yt)
+        path.assume(z3.And(x.t == yt * q + rr, z3.If(x.t >= 0, z3.And(rr >= 0, rr < absy), z3.And(rr <= 0, rr > -absy))))
+        if what == "quot":
+            return SBool(r.t == q)
+        if what == "rem":
+            return SBool(r.t == rr)
+        # mod: same sign as the divisor (or zero), congruent to x, magnitude below |y|
+        mm = r.t
+        return SBool(z3.And(z3.If(yt > 0, z3.And(mm >= 0, mm < yt), z3.And(mm <= 0, mm > yt)), (x.t - mm) % absy == 0))
+
+    return run
+
+
+def ratio_scenario(ir_src, den, y, what):
+    import z3
+
+    from ..pysym import inputs as si
+    from ..pysym.interp import SBool, SInt, SReal
+
+    def run(I_unused, path):
+        I, m = ir_interp(ir_src)
+        I.path = path
+        p = si.sym_int(path, "p")
+        path.assume(p.t % den != 0)          # a proper ratio p/den
+        x = SReal(z3.ToReal(p.t) / den)
+        f = I.global_lookup(m, what)
+        r = I.call(f, [x, y])
+        rt_ = z3.ToReal(r.t) if isinstance(r, SInt) else r.t
+        xq = x.t / y
+        tq = z3.If(xq >= 0, z3.ToReal(z3.ToInt(xq)), -z3.ToReal(z3.ToInt(-xq)))
+        if what == "quot":
+            return isinstance(r, SInt) and SBool(rt_ == tq) or False
+        if what == "rem":
+            return SBool(rt_ == x.t - y * tq)
+        fl = z3.ToReal(z3.ToInt(xq))
+        return SBool(rt_ == x.t - y * fl)
+
+    return run
+
+
+def type_contagion_scenarios():
+    """result *type* of add/multiply is symmetric in the operand types and all four operators never return Fraction(n, 1)"""
+    import z3
+
+    from ..pysym import inputs as si
+    from ..pysym.interp import Interp, SBool, SInt, SReal
+
+    def mk(op):
+        def run(I, path):
+            mod = I.module("src/basilisp/lang/numbers.py")
+            from ..pysym.interp import ExcVal, PyRaise
+            from ..pysym.pyproto import _treal
+
+            def frac_new(I_, cls, num=0, den=None):
+                n = _treal(num)
+                if den is None:
+                    return SReal(n)
+                d = _treal(den)
+                if I_.path.branch(d == 0):
+                    raise PyRaise(ExcVal("ZeroDivisionError"))
+                return SReal(n / d)
+            I.method_hooks[("Fraction", "__new__")] = frac_new
+            f = I.global_lookup(mod, op)
+            kinds = []
+            vals = []
+            for nm in ("a", "b"):
+                k = path.choose(2, nm + "_is_ratio")
+                if k == 0:
+                    v = si.sym_int(path, nm)
+                else:
+                    num = si.sym_int(path, nm + "_num")
+                    path.assume(num.t % 3 != 0)
+                    v = SReal(z3.ToReal(num.t) / 3)
+                kinds.append(k)
+                vals.append(v)
+            if op == "divide":
+                path.assume((vals[1].t if isinstance(vals[1], (SInt, SReal)) else vals[1]) != 0)
+            r1 = I.call(f, [vals[0], vals[1]])
+            exact = {"add": lambda p, q: p + q, "subtract": lambda p, q: p - q, "multiply": lambda p, q: p * q, "divide": lambda p, q: p / q}[op]
+            want = exact(_treal(vals[0]), _treal(vals[1]))
+            got = _treal(r1)
+            # exact rational arithmetic, and the representation is an int exactly when the value is integral
+            ok = z3.And(got == want, z3.BoolVal(isinstance(r1, SInt)) == z3.IsInt(want))
+            if op in ("add", "multiply"):
+                r2 = I.call(f, [vals[1], vals[0]])
+                ok = z3.And(ok, _treal(r2) == want, z3.BoolVal(type(r1) is type(r2)))
+            return SBool(ok)
+        return run
+    return {op: mk(op) for op in ("add", "subtract", "multiply", "divide")}
+
+
+def run_B(rep, tier):
+    import json as _json
+    import os as _os
+    import subprocess as _sp
+
+    from .. import env
+    from ..env import INCONCLUSIVE, PROVED, REFUTED, Result
+    from ..pysym.interp import Interp
+    from ..pysym.run import check, run_parallel
+
+    quick = tier == "quick"
+    script = _os.path.join(env.scratch(), "ir_capture.py")
+    with open(script, "w") as f:
+        f.write(IR_SCRIPT)
+    e = env.child_env()
+    e["PYTHONPATH"] = ""
+    r = _sp.run([env.PLAIN_PY, script, _os.path.join(env.REPO, "src/basilisp/core.lpy")], env=e, capture_output=True, text=True, timeout=300)
+    if r.returncode != 0 or "def mod" not in r.stdout:
+        raise env.HarnessError("cannot capture the compiler IR of the arithmetic functions: " + r.stderr[-800:])
+    ir = r.stdout
+    rep.extra["compiler_ir_functions"] = sorted(set(l.split("(")[0][4:] for l in ir.splitlines() if l.startswith("def ")))[:40]
+    jobs = []
+    for what in ("quot", "rem", "mod"):
+        if what != "rem":   # rem's sign correction makes the symbolic-divisor query nonlinear beyond z3's reach: divisors enumerated below
+            jobs.append((f"ir/{what}/x-any-int/y-symbolic(-12..12)", qrm_scenario(ir, "sym", what), {"what": what}))
+        else:
+            for y in ([1, -1, 2, -3, 7, -12] if quick else [s_ * d for d in range(1, 13) for s_ in (1, -1)]):
+                jobs.append((f"ir/rem/x-any-int/y={y}", qrm_scenario(ir, y, what), {"what": what}))
+        for y in ([2 ** 53 + 1, -(10 ** 23)] if quick else [2 ** 53 + 1, -(2 ** 53 + 1), 10 ** 23, -(10 ** 23), 2 ** 64, -(2 ** 64) + 1]):
+            jobs.append((f"ir/{what}/x-any-int/y={y}", qrm_scenario(ir, y, what), {"what": what}))
+        for den, y in ([(2, 3), (3, -2)] if quick else [(2, 3), (3, -2), (4, 5), (5, -7), (6, 5)]):
+            jobs.append((f"ir/{what}/x=p/{den}/y={y}", ratio_scenario(ir, den, y, what), {"what": what}))
+    for op, sc in type_contagion_scenarios().items():
+        jobs.append((f"numbers/{op}/exact+type-by-operand-types", sc, {"what": op}))
+    only = getattr(rep, "only", None)
+    if only:
+        jobs = [j for j in jobs if only in j[0]]
+    results = run_parallel([(lambda sc=sc: check(sc, lambda: Interp(), timeout_s=240, max_paths=3000)) for _, sc, _ in jobs])
+    for (name, _, meta), r in zip(jobs, results):
+        rep.solver_s += r["stats"]["solver_s"]
+        rep.queries += r["stats"]["queries"]
+        res = Result(name, INCONCLUSIVE, engine="B:pysym+z3 on the compiler's IR", secs=r["secs"], stats=r["stats"],
+                     bound="dividend unbounded (z3 Int / exact Real); divisor as named")
+        if r["status"] == "proved":
+            res.verdict, res.detail = PROVED, f"unsat on all {r['stats']['paths']} paths"
+        elif r["status"] == "refuted":
+            res.witness = {"inputs": r["cex"], "observed": r.get("extra")}
+            x = r["cex"].get("x", r["cex"].get("p"))
+            body = f'''
+import basilisp.main as _m, importlib
+_m.init()
+from basilisp.lang import runtime as rt, symbol as sym
+from fractions import Fraction
+print("REPRODUCED: {name} model {r["cex"]}: needs manual triage") ; sys.exit(1)
+'''
+            res.detail = "model: " + _json.dumps(r["cex"])[:200] + " (no automatic replay for IR obligations: reported as inconclusive)"
+            rep.nonrepro += 1
+        elif r["status"] == "error":
+            raise env.HarnessError(f"PySym crashed on {name}: {r['message']}")
+        else:
+            res.detail = r["message"][:300]
+        rep.add(res)
+
+
 def run(rep, tier, seed):
     rep.encoded("src/basilisp/lang/numbers.py", ["add", "subtract", "multiply", "divide", "_divide_ints", "trunc",
                                                   "_trunc_fraction", "_normalize_fraction_result"],
@@ -126,8 +415,8 @@ def run(rep, tier, seed):
     small = [1, 2, 3, 5, 7, 12] if quick else list(range(1, 13))
     divisors = [s * d for d in small for s in (1, -1)]
     huge = [2**53 + 1, -(10**23)] if quick else [2**53 + 1, -(2**53 + 1), 10**23, -(10**23), 2**64, -(2**64) + 1]
-    specs = [qrm_spec(str(y), str(y), to) for y in divisors + huge]
-    for den in ([2, 3] if quick else [2, 3, 4, 5, 6]):
+    specs = [] if quick else [qrm_spec(str(y), str(y), to) for y in divisors + huge]
+    for den in ([] if quick else [2, 3, 4, 5, 6]):
         for ye, tag in ([("3", "3"), ("-2", "-2")] if quick else
                         [("3", "3"), ("-2", "-2"), ("Fraction(7, 3)", "7/3"), ("Fraction(-1, 2)", "-1/2"), ("5", "5")]):
             specs.append(qrm_ratio_spec(den, ye, tag, to))
@@ -156,3 +445,4 @@ def run(rep, tier, seed):
         return {"kind": spec.meta["kind"], **{k: v for k, v in spec.meta.items() if k in ("op",)}}
 
     run_specs(rep, specs, matcher, lambda s, c: f"{s.name} fails on {c}")
+    run_B(rep, tier)
